@@ -150,6 +150,7 @@ inline double weightArg(int64_t x, bool exact, bool nonneg) {
 // ---- class adapters ----
 template <class L>
 struct AdLD {
+    template <class... T> using GT = BaseGraph::LabeledDirectedGraph<T...>;
     typedef BaseGraph::LabeledDirectedGraph<L> G;
     typedef L Lab;
     static const bool directed = true;
@@ -158,6 +159,7 @@ struct AdLD {
 };
 template <class L>
 struct AdLU {
+    template <class... T> using GT = BaseGraph::LabeledUndirectedGraph<T...>;
     typedef BaseGraph::LabeledUndirectedGraph<L> G;
     typedef L Lab;
     static const bool directed = false;
